@@ -658,12 +658,12 @@ static void do_mk(void)
     if (!strcmp(what, "biter")) {
         /* a BaseIterativeData_t without TimeValues / IterationValues cannot be read back */
         double tv[3] = {0, 1, 2}; cgsize_t dim = 3;
-        rc = cg_biter_write(fn, cB, "BaseIterativeData", 3);
+        rc = cg_biter_write(fn, cB, NW > 3 ? W[3] : "BaseIterativeData", 3);        /* the caller chooses the name */
         if (!rc) rc = cg_goto(fn, cB, "BaseIterativeData_t", 1, "end");
         if (!rc) rc = cg_array_write("TimeValues", CGNS_ENUMV(RealDouble), 1, &dim, tv);
     }
-    else if (!strcmp(what, "ziter")) rc = cg_ziter_write(fn, cB, Z, "ZoneIterativeData");
-    else if (!strcmp(what, "piter")) rc = cg_piter_write(fn, cB, PZ, "ParticleIterativeData");
+    else if (!strcmp(what, "ziter")) rc = cg_ziter_write(fn, cB, Z, NW > 3 ? W[3] : "ZoneIterativeData");
+    else if (!strcmp(what, "piter")) rc = cg_piter_write(fn, cB, PZ, NW > 3 ? W[3] : "ParticleIterativeData");
     else if (!strcmp(what, "state")) rc = cg_state_write(variant ? vtxt : "");        /* plain: no ReferenceStateDescription child */
     else if (!strcmp(what, "converg")) rc = cg_convergence_write(5 + variant, variant ? vtxt : "");
     else if (!strcmp(what, "eqset")) rc = cg_equationset_write(variant % 2 ? 2 : 3);
